@@ -1,3 +1,189 @@
-import UvModel.FsPoll
+import UvModel.Lemmas.FsWatchLemmas
+/-!
+  C17 — property theorems.  fs_poll half over `UvModel.FsPoll` (model of src/fs-poll.c), fs_event half
+  over `UvModel.FsEvent` (model of the inotify part of src/unix/linux.c).
+
+  Every theorem quantifies over all callback scripts `sc`, all input sequences `ins` (API calls,
+  stat completions with arbitrary results, timer expiries, close callbacks, clock advances — in any
+  order; inputs that libuv did not ask for are rejected by the model and change nothing).
+-/
 namespace UvModel.Props.C17
+open UvModel.FsPoll
+
+/-! ## fs_poll -/
+
+/-- **poll_chain.**  For every context `c` of every reachable state, the user callbacks made by `c`
+    are exactly `specCbs` of the results `c` saw while it was the handle's live context: a callback at
+    a result iff it differs (status, or `statbufEq` on the metadata) from the immediately preceding one
+    — the very first result is reported only when it is an error, so the first successful result is
+    never reported and an error is reported once per distinct error — with arguments
+    (status, metadata of the latest earlier success or zeroes, metadata of this result or zeroes). -/
+theorem poll_chain (sc : Script) (ins : List In) (c : Nat) (hc : c < (run sc {} ins).nctx) :
+    cbsOf c (run sc {} ins).trace = specCbs (histOf c (run sc {} ins).trace) :=
+  ((pcat_run sc inv_init ins (pcat_init c)).1 hc).1
+
+/-- **poll_chain (chaining).**  In the prescribed callback sequence, the `prev` of every callback is the
+    `curr` of the latest earlier callback with status 0 (if there is one): consecutive successful
+    callbacks chain, and an error callback in between does not break the chain. -/
+theorem poll_chain_links (older : List Res) (r : Res) (cb : CbRec)
+    (h : newestOkCb (specCbs older) = some cb) :
+    (CbRec.mk r.status (lastOk older) r.curr).prev = cb.curr :=
+  (lastOk_of_newestOkCb older cb h).symm
+
+/-- `statbufEq` is equality on the compared fields, so "differ" means a compared field changed. -/
+theorem statbufEq_spec (a b : Stat) : statbufEq a b = true ↔ a = b := statbufEq_iff a b
+
+/-- the first successful result is never reported; a repeated identical error is not reported again;
+    a different error, a recovery and a metadata change are. -/
+theorem reported_cases (st st' : Stat) (e f : Nat) (t : List Res) :
+    reported [] (.ok st) = false ∧ reported [] (.err e) = true ∧
+    reported (.err e :: t) (.err e) = false ∧ (e ≠ f → reported (.err e :: t) (.err f) = true) ∧
+    reported (.err e :: t) (.ok st) = true ∧ reported (.ok st :: t) (.err e) = true ∧
+    reported (.ok st :: t) (.ok st) = false ∧ (st ≠ st' → reported (.ok st :: t) (.ok st') = true) := by
+  refine ⟨rfl, rfl, by simp [reported, differ], fun h => by simp [reported, differ, h], rfl, rfl, ?_, ?_⟩
+  · simp [reported, differ, (statbufEq_iff st st).2 rfl]
+  · intro h
+    have : statbufEq st st' = false := by
+      cases hb : statbufEq st st' with
+      | false => rfl
+      | true => exact absurd ((statbufEq_iff _ _).1 hb) h
+    simp [reported, differ, this]
+
+/-- **old_ctx_dead_after_restart** (full strength; L3 is fixed).  Once a context is not the live one of
+    its handle (the handle was stopped, is closing, or was restarted so that another context is
+    `poll_ctx`), it never becomes live again, and from then on — whatever happens, including its
+    in-flight stat completing with any result — it makes no callback, submits no stat request and
+    arms no timer: its old path and callback are never used again. -/
+theorem old_ctx_dead_after_restart (sc : Script) (ins1 ins2 : List In) (c : Nat)
+    (hc : c < (run sc {} ins1).nctx) (hd : liveB (run sc {} ins1) c = false) :
+    let s1 := run sc {} ins1
+    let s2 := run sc s1 ins2
+    liveB s2 c = false ∧ cbsOf c s2.trace = cbsOf c s1.trace ∧
+    statsOf c s2.trace = statsOf c s1.trace ∧ armsOf c s2.trace = armsOf c s1.trace :=
+  dead_run sc (inv_run sc inv_init ins1) ins2 hc hd
+
+/-- uv_fs_poll_stop makes every context of the handle dead (so the theorem above applies to it) -/
+theorem stop_makes_dead (sc : Script) (ins : List In) (h c : Nat)
+    (hh : ((run sc {} ins).ctxs c).handle = h) (hnc : ((run sc {} ins).hs h).closed = false) :
+    liveB (step sc (run sc {} ins) (.op (.stop h))) c = false := by
+  have hi : Inv (run sc {} ins) := inv_run sc inv_init ins
+  generalize run sc {} ins = s at *
+  simp only [step, applyOp, apiStop, S.emit, hnc, Bool.false_eq_true, if_false]
+  have fr := frame_stopCore (s := { s with trace := Obs.api (Op.stop h) :: s.trace }) h c
+  have : ((stopCore { s with trace := Obs.api (Op.stop h) :: s.trace } h).hs h).active = false := by
+    unfold stopCore
+    by_cases ha : (s.hs h).active = true
+    · obtain ⟨_, c0, tl, hch, _⟩ := hi.activeHead h ha
+      simp only [ha, hch, Bool.not_true, Bool.false_eq_true, if_false]
+      split <;> split <;> simp [S.setH, S.setCtx, S.emit, S.fail]
+    · simp [ha]
+  simp only [liveB]
+  rw [fr.2.1, hh, this]; rfl
+
+/-- a restart (start on an inactive handle) leaves every older context of that handle dead -/
+theorem restart_makes_dead (sc : Script) (ins : List In) (h cb p iv c : Nat)
+    (hc : c < (run sc {} ins).nctx) (hina : ((run sc {} ins).hs h).active = false)
+    (hh : ((run sc {} ins).ctxs c).handle = h) :
+    liveB (step sc (run sc {} ins) (.op (.start h cb p iv))) c = false := by
+  generalize run sc {} ins = s at *
+  have hne : c ≠ s.nctx := Nat.ne_of_lt hc
+  simp only [step, applyOp, apiStart, S.emit, hina, Bool.false_eq_true, if_false]
+  by_cases hcl : (s.hs h).closing = true
+  · simp [hcl, liveB, hh, hina]
+  · simp [hcl, liveB, upd_apply, hne, hh, Ne.symm hne]
+
+/-- **close_waits_for_stat.**  In every reachable state the ownership discipline was never violated
+    (`err = false`: no context or handle touched after it was freed, no failed assert), and
+    `uv__make_close_pending` has been called for a handle only when every context it ever had has been
+    freed by its own `timer_close_cb` — so the user's close_cb (which may free the handle) cannot run
+    while a stat is in flight or a timer close is outstanding. -/
+theorem close_waits_for_stat (sc : Script) (ins : List In) :
+    let s := run sc {} ins
+    s.err = false ∧
+    ∀ h c, (s.hs h).closePending = true → c < s.nctx → (s.ctxs c).handle = h →
+      (s.ctxs c).freed = true ∧ (s.ctxs c).statInFlight = false ∧
+      (s.ctxs c).timerActive = false ∧ (s.ctxs c).timerClosing = false := by
+  intro s
+  have hi : Inv s := inv_run sc inv_init ins
+  refine ⟨hi.noErr, fun h c hp hc hh => ?_⟩
+  have hch := (hi.closeP h hp).1
+  have hfr : (s.ctxs c).freed = true := by
+    cases hf : (s.ctxs c).freed with
+    | true => rfl
+    | false =>
+      have := hi.inChain c hc hf
+      rw [hh, hch] at this; cases this
+  exact ⟨hfr, hi.phaseFreed c hc hfr⟩
+
+/-- the close_cb is delivered only after `uv__make_close_pending`: otherwise the event is rejected -/
+theorem closeCb_needs_pending (s : S) (h : Nat) (hp : (s.hs h).closePending = false) :
+    closeCb s h = s.emit .badEvent := by
+  simp [closeCb, hp]
+
+/-- **never_blocks_loop_close.**  A context that is not live and not yet freed always has exactly the
+    pending event that retires it: its timer is not armed (nothing to wait for), and delivering its
+    in-flight stat result (any result; no callback is made) and then its timer close callback frees it. -/
+theorem never_blocks_loop_close (sc : Script) (ins : List In) (c : Nat) (r : Res)
+    (hc : c < (run sc {} ins).nctx) (hd : liveB (run sc {} ins) c = false)
+    (hf : ((run sc {} ins).ctxs c).freed = false) :
+    let s := run sc {} ins
+    (s.ctxs c).timerActive = false ∧
+    ((run sc s ((if (s.ctxs c).statInFlight then [In.statDone c r] else []) ++ [In.timerClosed c])).ctxs c).freed = true := by
+  intro s
+  have hi : Inv s := inv_run sc inv_init ins
+  have hp := dead_pending hi hc hd hf
+  refine ⟨hp.1, ?_⟩
+  by_cases hst : (s.ctxs c).statInFlight = true
+  · have h1 := retire_stat sc hi hc hd hst r
+    have hi1 := inv_statDone sc hi c r
+    have hc1 : c < (statDone sc s c r).nctx := Nat.lt_of_lt_of_le hc (nctx_step sc s (.statDone c r))
+    have h2 := retire_close hi1 hc1 h1.1
+    simp only [hst, if_true, List.singleton_append, run, List.foldl, step]
+    exact h2.1
+  · have htc : (s.ctxs c).timerClosing = true := by
+      rcases hp.2 with h | h
+      · exact absurd h hst
+      · exact h
+    have h2 := retire_close hi hc htc
+    simp only [hst, Bool.false_eq_true, if_false, List.nil_append, run, List.foldl, step]
+    exact h2.1
+
+/-- ... and once every context of a closing handle has retired, `uv__make_close_pending` has been
+    called, i.e. the handle's close_cb is due and the handle no longer keeps the loop open. -/
+theorem close_pending_when_retired (sc : Script) (ins : List In) (h : Nat)
+    (hcl : ((run sc {} ins).hs h).closing = true)
+    (hall : ∀ c, c < (run sc {} ins).nctx → ((run sc {} ins).ctxs c).handle = h →
+      ((run sc {} ins).ctxs c).freed = true) :
+    ((run sc {} ins).hs h).closePending = true := by
+  have hi : Inv (run sc {} ins) := inv_run sc inv_init ins
+  apply hi.closeQ h hcl
+  cases hch : ((run sc {} ins).hs h).chain with
+  | nil => rfl
+  | cons c tl =>
+    have hw := hi.chainWf h c (by simp [hch])
+    have := hall c hw.1 hw.2.1
+    rw [hw.2.2] at this; cases this
+
+/-! ### non-vacuity: concrete runs satisfying the hypotheses -/
+
+/-- the L3 shape: start, stop + restart on another path/callback while the first stat is in flight,
+    then both stats complete with different results, the new context's timer fires, a changed result -/
+def demoScript : Script := fun _ => []
+def stA : Stat := { size := 1, mtimS := 10 }
+def stB : Stat := { size := 2, mtimS := 11 }
+def demoIns : List In :=
+  [.op (.start 0 0 1 100), .op (.stop 0), .op (.start 0 1 2 50),
+   .statDone 0 (.ok stA), .statDone 1 (.ok stA), .advance 50, .timerFire 1, .statDone 1 (.ok stB),
+   .advance 50, .timerFire 1, .statDone 1 (.err 1), .timerClosed 0]
+
+example : (run demoScript {} demoIns).nctx = 2 := by decide
+example : liveB (run demoScript {} (demoIns.take 3)) 0 = false := by decide
+example : liveB (run demoScript {} demoIns) 1 = true := by decide
+example : cbsOf 1 (run demoScript {} demoIns).trace =
+    [⟨-2, stB, Stat.zero⟩, ⟨0, stA, stB⟩] := by decide
+example : cbsOf 0 (run demoScript {} demoIns).trace = [] := by decide
+example : ((run demoScript {} demoIns).ctxs 0).freed = true := by decide
+example : ((run demoScript {} (demoIns ++ [.op (.close 0)])).hs 0).closePending = false := by decide
+example : ((run demoScript {} (demoIns ++ [.op (.close 0), .timerClosed 1])).hs 0).closePending = true := by decide
+
 end UvModel.Props.C17
